@@ -62,7 +62,11 @@ def urlStemsOp (j : Json) : Json :=
     | p => some (Driver.C12.partsOf p)
   let r := lruStemsOfUrl (Driver.C12.splitOf j) split5 (fieldBool j "sa") url
   let js (o : Option (List Str)) : Json := match o with | some l => jlist (l.map out) | none => .null
-  jlist [out (ensureProtocol url httpStr), js r, js (r.map dropSchemeStem)]
+  let base := [out (ensureProtocol url httpStr), js r, js (r.map dropSchemeStem)]
+  -- the same with the modelled parser (`modelSplit5`) instead of the shipped components
+  if fieldBool j "model_parser" then
+    jlist (base ++ [js (lruStemsOfUrl (Driver.C12.splitOf j) modelSplit5 (fieldBool j "sa") url)])
+  else jlist base
 
 def hostOp (j : Json) (trie : SNode Str) : Json :=
   let url := s j "url"
